@@ -716,7 +716,24 @@ class Paths:
                         path = h.path
                 return ("call", path, ng) + tuple(n[3:])
             return None
-        return [self._rebind(s, r) for s in self.of(g, depth + 1)]
+        out = []
+        for s in self.of(g, depth + 1):
+            facts, effects, ret = self._rebind(s, r)
+            # a condition of the callee on a value the caller has just constructed is decided here: the case is
+            # dropped (contradiction) or the condition discharged
+            keep, dead = [], False
+            for fc in facts:
+                if fc[0] == "variant" and _is_tree(fc[1]):
+                    vo = variant_of(strip_refs(fc[1]))
+                    if vo is not None and vo[0] in (OPT, RES):
+                        if vo[1] in fc[2]:
+                            continue
+                        dead = True
+                        break
+                keep.append(fc)
+            if not dead:
+                out.append((keep, effects, ret))
+        return out
 
     def _rebind(self, s, r0):
         # calls inside the callee that take `&mut` are distinct events of *this* invocation: tag them with it, so that
